@@ -370,6 +370,33 @@ class Program:
             raise AnalysisError("anchor function *%s not found uniquely (matches: %s)" % (suffix, [f.path for f in v][:5]))
         return v[0]
 
+    def method(self, self_ty, trait, name, inputs_contains=None):
+        """unique method `name` of an impl whose self type ends with self_ty; trait: substring of the trait path
+        (None = inherent impl)"""
+        v = []
+        for f in self.fns.values():
+            if f.kind != "assocfn":
+                continue
+            r = f.raw
+            if not f.id.endswith("::" + name):
+                continue
+            st = r.get("impl_self")
+            if st is None or not (st == self_ty or st.endswith("::" + self_ty) or st.endswith(self_ty)):
+                continue
+            tr = r.get("impl_trait")
+            if trait is None:
+                if tr is not None:
+                    continue
+            else:
+                if tr is None or trait not in tr:
+                    continue
+            if inputs_contains and not any(inputs_contains in i for i in r.get("inputs", [])):
+                continue
+            v.append(f)
+        if len(v) != 1:
+            raise AnalysisError("anchor method <%s as %s>::%s not found uniquely (matches: %s)" % (self_ty, trait, name, [f.path for f in v][:4]))
+        return v[0]
+
     def closures_of(self, fn):
         """closures (transitively nested) whose typeck root is fn"""
         return self.children.get(fn.id, []) if fn.root == fn.id else []
